@@ -125,6 +125,7 @@ class Interp:
         self.set_iteration_sites = []
         self.inline_limit = {}
         self.frame_violations = []
+        self.nonrecursive = set()   # functions whose contract says `decreases: none` (no self-call allowed)
         self.ghost_depth = 0     # >0 while evaluating side-effect-free specification code
 
     # ======================================================================== module loading
@@ -393,9 +394,9 @@ class Interp:
             path.add_hyp(list(free), pos, 'exists-def')
             path.add_hyp(list(free) + [neg_var], neg, 'exists-neg') if len(free) == 1 else None
             # also usable at the current binder values
-            path.assume(pos)
+            path.define(pos)
         else:
-            path.assume(pos)
+            path.define(pos)
             path.add_hyp([neg_var], neg, 'exists-neg')
             path.add_index(sk)
         reg[key] = atom
@@ -639,7 +640,7 @@ class Interp:
                 for inv in self.class_invs.get(c.qualname, ()):
                     f = inv(self, path, v)
                     if f is not None and f is not True:
-                        path.assume(f)
+                        path.define(f)
 
     def fresh_dt(self, cls: ClassV, name, path):
         v = DtV(cls, z3.Const(name, self.sorts.sort_of_class(cls)))
@@ -761,7 +762,7 @@ class Interp:
             if path.branch(uni['recognizer'][c](u.expr)):
                 return self.getattr_(DtV(c, uni['unwrap'][c](u.expr)), name, path)
         c = having[-1]
-        path.assume(uni['recognizer'][c](u.expr))
+        path.define(uni['recognizer'][c](u.expr))
         return self.getattr_(DtV(c, uni['unwrap'][c](u.expr)), name, path)
 
     def make_union(self, name, classes):
@@ -786,7 +787,7 @@ class Interp:
             if path.branch(uni['recognizer'][c](u.expr)):
                 return DtV(c, uni['unwrap'][c](u.expr))
         c = uni['classes'][-1]
-        path.assume(uni['recognizer'][c](u.expr))
+        path.define(uni['recognizer'][c](u.expr))
         return DtV(c, uni['unwrap'][c](u.expr))
 
     def ext_attr(self, m: ExtModule, name):
@@ -880,8 +881,18 @@ class Interp:
         else:
             s = self.to_str(v, path)
         if node.format_spec is not None:
+            from .builtins_ import apply_format_spec, ljust
+            fs = node.format_spec
+            if isinstance(fs, pyast.JoinedStr) and len(fs.values) == 2 and isinstance(fs.values[0], pyast.Constant) \
+                    and isinstance(fs.values[1], pyast.FormattedValue) and fs.values[1].format_spec is None \
+                    and fs.values[0].value in (' <', '<'):
+                width = self.eval(fs.values[1].value, env, path)
+                if isinstance(width, bool) or not self.is_num(width):
+                    raise Unsupported('format width is not an integer')
+                if not isinstance(s, (str, StrT)):
+                    raise Unsupported('format spec on non-string')
+                return ljust(self, s, width, ' ', path)
             spec = self.eval(node.format_spec, env, path)
-            from .builtins_ import apply_format_spec
             s = apply_format_spec(self, s, spec, path)
         return s
 
@@ -1207,9 +1218,18 @@ class Interp:
         if isinstance(s, str) and isinstance(n, int):
             return s * n
         if isinstance(s, str) and len(s) == 1 and is_z3(n):
-            r = z3.String(fresh_name('rep'))
-            path.assume(z3.Length(r) == z3.If(n > 0, n, z3.IntVal(0)))
-            path.assume(z3.InRe(r, z3.Star(z3.Re(z3.StringVal(s)))))
+            # a pure function of n: the same count gives the same term
+            from .builtins_ import uf
+            r = uf(self, f'py.repeat[{s!r}]', z3.IntSort(), z3.StringSort())(z3.simplify(n))
+            reg = path.__dict__.setdefault('_rep_terms', set())
+            if r.get_id() not in reg:
+                reg.add(r.get_id())
+                path.define(z3.Length(r) == z3.If(n > 0, n, z3.IntVal(0)))
+                # character-class facts only (no regular expression: measured to make sat checks explode)
+                if s in ops.WHITESPACE:
+                    path.define(ops.all_ws(r))
+                if s not in ops.LINE_BREAKS:
+                    path.define(ops.no_break(r))
             return mkstr([r])
         raise Unsupported('string repetition')
 
@@ -1342,6 +1362,8 @@ class Interp:
                 return ov(self, path, args, kwargs)
         if self.trace_calls is not None:
             self.trace_calls.add(qn)
+        if qn in self.nonrecursive and qn in self.call_stack:
+            raise TerminationViolation(qn, list(self.call_stack))
         node = fn.node
         self.act_counter += 1
         env = Env(fn.module, fn.closure, self.act_counter)
@@ -1767,6 +1789,14 @@ class Interp:
                 return ('raise', rs.exc, args)
 
         return explore(parent, run, max_paths)
+
+
+class TerminationViolation(Exception):
+    """a function declared non-recursive called itself (the `decreases` obligation fails)"""
+
+    def __init__(self, qualname, stack):
+        super().__init__(f'{qualname} calls itself without a decreasing measure')
+        self.qualname, self.stack = qualname, stack
 
 
 class _NopeT:
